@@ -60,6 +60,12 @@ fn opt_bytes(o: Option<Vec<u8>>) -> Value {
         None => json!({"some": false}),
     }
 }
+pub fn movie_event<R: Read + Seek>(r: &Mp4Reader<R>) -> Value {
+    match guarded(|| (r.duration().as_millis(), r.timescale())) {
+        Ok((d, ts)) => json!({"e":"movie","res":"ok","dur_ms":big128(d),"timescale":big(ts as u64)}),
+        Err(p) => json!({"e":"movie","res":"panic","dur_ms":[],"timescale":[],"msg":p}),
+    }
+}
 pub fn meta_event<R: Read + Seek>(r: &Mp4Reader<R>) -> Value {
     let m = guarded(|| {
         let md = r.metadata();
@@ -170,6 +176,7 @@ pub fn run_case(case: &Value, out: &mut Out) {
                 "offset" => out.ev(offset_event(&mut reader, t, k)),
                 "count" => out.ev(count_event(&mut reader, t)),
                 "meta" => out.ev(meta_event(&reader)),
+                "movie" => out.ev(movie_event(&reader)),
                 _ => {}
             }
         }
@@ -178,6 +185,7 @@ pub fn run_case(case: &Value, out: &mut Out) {
     let mut ts = vec![0u32];
     ts.extend(ids.iter().copied());
     ts.push(ids.iter().copied().max().unwrap_or(0) + 1);
+    out.ev(movie_event(&reader));
     for &t in ts.iter() {
         out.ev(count_event(&mut reader, t));
     }
